@@ -884,7 +884,10 @@ func (conn *liveConn) SetReadDeadline(deadline time.Time) error {
 }
 
 func (conn *liveConn) SetWriteDeadline(deadline time.Time) error {
-	panic("not supported")
+	if c, ok := conn.rwc.(interface{ SetWriteDeadline(time.Time) error }); ok {
+		return c.SetWriteDeadline(deadline)
+	}
+	return errors.New("not supported")
 }
 
 func (s *Server) watchAutoGC(wg *sync.WaitGroup) {
